@@ -954,6 +954,14 @@ std::vector<K> gen_keys(TapeReader &t, const GenOpts &o, KeyMeta &meta) {
             size_t i = 1 + t.below(n - 1);
             int k = 20 + (int) t.below(std::is_same_v<K, float> ? 41 : 71);
             while (i < n && (keys[i] <= 0 || keys[i] == keys[i - 1])) ++i;
+            // the scaled keys stay below 2^100: gaps beyond about 2^126 positions^-1 make the slope of a sparse segment underflow in a float
+            // (DESIGN.md section 3 keeps the slopes of floating keys inside the range of both slope types; an earlier version of this
+            // class did not, and raised false alarms for C01 / C02 / C07 with Floating = float)
+            if (i < n) {
+                int room = 100 - (std::ilogb((double) keys[n - 1]) + 1);
+                if (room < 20) i = n;
+                else k = std::min(k, room);
+            }
             if (i < n) {
                 for (size_t j = i; j < n; ++j) keys[j] = std::ldexp(keys[j], k); // exact: a power-of-two factor, far from overflow
                 rec << " FARTAIL(from #" << i << ", x2^" << k << ")";
